@@ -27,6 +27,12 @@ def grid(rng, tier):
               PP.NePredicate(v=None), PP.EqPredicate(v="a"), PP.NePredicate(v=""), PP.EqPredicate(v=(1, 2)), PP.GePredicate(v="m"),
               PP.LtPredicate(v="m"), in_p(None), not_in_p(None, 1), in_p("a", "b"), not_in_p("a"), in_p(True), not_in_p(False), in_p((1, 2)),
               in_p(1, 2, (1, 2)), not_in_p(1, (1,))]
+    # the exported named constants themselves (a subclass or a special-cased object behind the name is what users negate)
+    import predicate.standard_predicates as _SP
+    for _name in ("eq_true_p", "eq_false_p", "neg_p", "zero_p", "pos_p", "is_none_p", "is_not_none_p", "is_falsy_p", "is_truthy_p", "is_int_p", "is_bool_p",
+                  "is_str_p", "is_float_p", "is_list_p", "is_dict_p", "is_set_p", "is_tuple_p", "is_callable_p", "is_iterable_p", "is_container_p", "is_hashable_p"):
+        if hasattr(_SP, _name):
+            atoms.append(getattr(_SP, _name))
     comps = []
     n = 150 if tier == "quick" else 1500
     for _ in range(n):
@@ -114,7 +120,25 @@ def search(payload):
                     break
         if len(fails) >= 5:
             break
-    return {"evaluations": n, "failures": fails, "known_hits": [],
+    # a negation computed earlier must stay the complement after the optimizer has seen it inside another tree
+    from predicate import optimize as _optimize
+    for mk_p, other in ((lambda: in_p(1, 2), lambda: not_in_p(3, 4)), (lambda: not_in_p(1, 2), lambda: in_p(3, 4)), (lambda: in_p(1, 2), lambda: in_p(3, 4)),
+                        (lambda: PP.GePredicate(v=2), lambda: PP.LePredicate(v=5))):
+        p0 = mk_p()
+        q0 = negate(p0)
+        for build in (lambda a, b: PP.AndPredicate(left=a, right=b), lambda a, b: PP.OrPredicate(left=a, right=b), lambda a, b: PP.OrPredicate(left=b, right=a)):
+            for subject in (q0, p0):
+                try:
+                    _optimize(build(subject, other()))
+                except Exception:  # noqa: BLE001
+                    pass
+        for x in (1, 2, 3, 4, 5, 0, 6):
+            n += 1
+            if call(p0, x)[0] == "ok" and call(q0, x) != ("ok", not call(p0, x)[1]):
+                fails.append({"p": repr(p0), "p_structure": skey(p0), "x": repr(x), "p(x)": call(p0, x)[1], "negate(p)": repr(q0), "negate(p)_structure": skey(q0),
+                              "negate(p)(x)": repr(call(q0, x)), "history": "negate(p) computed first, then optimize() ran on trees containing p / negate(p)"})
+                break
+    return {"evaluations": n, "failures": fails[:8], "known_hits": [],
             "samples": [{"p": repr(ps[0]), "x": repr(VALUES[3])}]}
 
 
